@@ -24,7 +24,7 @@ MANIFEST = {
 }
 GEN = ["FiberConst"]
 MODELS = ["OptiVerif.Model.FiberNL", "OptiVerif.Model.Fiber", "OptiVerif.Model.Fourier", "OptiVerif.Gen.FiberConst"]
-RULE = ("cases = pulse trains / random fields (zero leading samples included), 1 or 2 polarisations, N in {32..256}, alpha in [0,0.5] "
+RULE = ("cases = pulse trains / random fields (zero leading samples included), 1 or 2 polarisations, N in {32..160} even and odd, alpha in [0,0.5] "
         "dB/km, beta2 in [-25,25], beta3 in [-0.2,0.2], gamma in [0,5], gamma*P*L<=10 rad, phi_max in [5e-4,0.1]; non-trivial = "
         "gamma>0 and at least 2 steps or the SPM branch; distinct by all parameters")
 PARTIAL = ["convergence to the NLSE solution with error O(phi_max): oracle against an independent fixed-step reference (thorough tier)",
@@ -68,7 +68,8 @@ def gen_cases(rng, tier):
     nrep = 25 if tier == "quick" else 90
     for i in range(nrep):
         for npol in (1, 2):
-            n = rng.choice([32, 48, 64, 96, 128] if tier == "quick" else [32, 64, 100, 128, 160])
+            # odd lengths too: the FFT-ordered frequency grid has no Nyquist bin there (fftshift/ifftshift differ)
+            n = rng.choice([32, 33, 48, 63, 64, 95, 96, 128] if tier == "quick" else [32, 33, 64, 100, 101, 127, 128, 160])
             sps, R = rng.choice([(16, 10e9), (8, 10e9), (16, 40e9)])
             L = rng.uniform(1, 100)
             gamma = rng.choice([0.0, rng.uniform(0.2, 5.0), rng.uniform(0.2, 5.0)])
@@ -102,7 +103,7 @@ def gen_cases(rng, tier):
         kind = [(0, 1), (1, 1), (1, 0), (0, 1)][i % 4]     # pure third order first
         b2 = kind[0] * ph2 * 2 / (wmax ** 2 * L)
         b3 = kind[1] * max(-0.2, min(0.2, ph3 * 6 / (wmax ** 3 * L)))
-        cases.append({"kind": "run", "n": 64, "npol": rng.choice([1, 2]), "sps": sps, "R": R, "L": L, "gamma": gamma, "P": P,
+        cases.append({"kind": "run", "n": 64 if i % 2 == 0 else 63, "npol": rng.choice([1, 2]), "sps": sps, "R": R, "L": L, "gamma": gamma, "P": P,
                       "phi": rng.choice([0.05, 0.02]), "b2": b2, "b3": b3, "alpha": rng.choice([0.0, 0.2]),
                       "shape": "pulses", "lead0": rng.choice([0, 3]), "ypow": rng.choice([0.0, 0.5]),
                       "seed": rng.getrandbits(32), "ref_steps": 4000})
@@ -295,7 +296,7 @@ def compare(case, res, reqs, replies):
         if why:
             out.append(f"replay of the implementation's schedule: {why}")
         tol = 1e-9
-        if abs(hs[0] - h0) > tol * max(abs(h0), 1e-300):
+        if not (abs(hs[0] - h0) <= tol * max(abs(h0), 1e-300)):
             out.append(f"first step: implementation {hs[0]!r}, model rule {h0!r}")
         x = hs[0]
         for i in range(1, len(hs) + 1):
@@ -303,14 +304,14 @@ def compare(case, res, reqs, replies):
             last_applied = i == len(hs)
             if last_applied:
                 # nothing more was applied: the rule must have asked for a step leaving the fibre, and x must be L
-                if not (x + r > L * (1 - 1e-12)) or abs(x - L) > 1e-9 * L:
+                if not (x + r > L * (1 - 1e-12)) or not (abs(x - L) <= 1e-9 * L):
                     out.append(f"stop rule: after {i} steps x={x!r}, rule step {r!r}, L={L!r}")
                 break
             h = hs[i]
             is_final = (i == len(hs) - 1) and abs((x + h) - L) <= 1e-9 * L and x + r > L * (1 - 1e-12)
             if is_final:
                 break
-            if abs(h - r) > tol * max(abs(r), 1e-300) or x + r > L * (1 + 1e-12):
+            if not (abs(h - r) <= tol * max(abs(r), 1e-300)) or not (x + r <= L * (1 + 1e-12)):
                 out.append(f"step {i}: implementation took {h!r}, model rule gives {r!r} (x={x!r}, L={L!r})")
                 break
             x += h
@@ -339,17 +340,17 @@ def oracle(case, res):
     lossdb = case["alpha"] * case["L"]
     want = e_in * 10 ** (-lossdb / 10)
     rtol = 2e-5 * lossdb / 4.343 + 1e-9 * case["n"] * max(1.0, res["steps"] / 50)
-    if np.any(np.abs(e_out - want) > rtol * np.maximum(want, 1e-300) + 1e-300):
+    if not np.all(np.abs(e_out - want) <= rtol * np.maximum(want, 1e-300) + 1e-300):
         v.append(("C08:energy", f"energy per polarisation {e_out} != input*10^(-alpha L/10) {want} {tag}"))
     if case["b2"] == 0 and case["b3"] == 0:
         ap = case["alpha"] / 4.343
         leff = case["L"] if ap == 0 else (1 - np.exp(-ap * case["L"])) / ap
         ref = a * np.exp(-ap * case["L"] / 2) * np.exp(1j * case["gamma"] * np.abs(a) ** 2 * leff)
-        if np.max(np.abs(ref - o)) > 1e-9 * max(1e-30, np.max(np.abs(a))) * (1 + case["gamma"] * case["P"] * leff):
+        if not (np.max(np.abs(ref - o)) <= 1e-9 * max(1e-30, np.max(np.abs(a))) * (1 + case["gamma"] * case["P"] * leff)):
             v.append(("C08:spm-closed-form", f"dispersionless output differs from in*exp(-aL/2)*exp(j g |in|^2 L_eff) by {np.max(np.abs(ref - o)):.3e} {tag}"))
     if "onepol_err" in res:
         scale = max(1e-30, float(np.max(np.abs(a))))
-        if res["onepol_err"] > 1e-9 * scale * case["n"] * max(1.0, res["steps"] / 50):
+        if not (res["onepol_err"] <= 1e-9 * scale * case["n"] * max(1.0, res["steps"] / 50)):
             v.append(("C08:one-pol", f"1-pol output differs from the x-pol of the 2-pol twin by {res['onepol_err']:.3e} {tag}"))
         if res["ypol_max"] != 0.0:
             v.append(("C08:y-pol-empty", f"empty y-polarisation became non-zero ({res['ypol_max']:.3e}) {tag}"))
@@ -357,9 +358,9 @@ def oracle(case, res):
         nl = case["gamma"] * case["P"] * case["L"]
         # "converges ... with relative error bounded by a constant times phi_max": a generous constant, and the error must
         # actually shrink when phi_max is divided by 4 (first order predicts a factor 4; 0.6 leaves room for rounding)
-        if res["ref_err"] > 10.0 * case["phi"] * max(1.0, nl) + 1e-6:
+        if not (res["ref_err"] <= 10.0 * case["phi"] * max(1.0, nl) + 1e-6):
             v.append(("C08:convergence", f"relative error {res['ref_err']:.3e} vs fixed-step NLSE reference exceeds 10*phi_max*max(1,gamma P L) {tag}"))
-        elif res["ref_err_quarter"] > max(0.6 * res["ref_err"], 2e-4):
+        elif not (res["ref_err_quarter"] <= max(0.6 * res["ref_err"], 2e-4)):
             v.append(("C08:convergence-rate", f"error does not shrink with phi_max: {res['ref_err']:.3e} at phi_max, {res['ref_err_quarter']:.3e} at phi_max/4 {tag}"))
     return v
 
